@@ -246,7 +246,7 @@ Lemma ins_child_hle o p c index (t : itree) l l1 fr tm0 (out : out) :
   match Conc.find p t, Conc.find c t with
   | Some (INode pi cs), Some child =>
     '(sep, _) <- get_nth index cs ;;
-    sep' <- (if index =? 0 then sm <- ismallest child ;; Ok (if ltb (key_of o) sm then key_of o else sep) else Ok sep) ;;
+    sep' <- Ok (if index =? 0 then (if ltb (key_of o) sep then key_of o else sep) else sep) ;;
     match isplit order fr child with
     | None =>
       t' <- upd p (fun _ => Ok (INode pi (set_nth index (sep', child) cs))) t ;;
@@ -271,7 +271,8 @@ Proof.
   subst ch.
   unfold get_nth in H. rewrite Hn in H. cbn [bind] in H.
   assert (Hpi : pi = p) by (apply find_nid in Hfp; exact Hfp). subst pi.
-  match type of H with bind ?e _ = _ => destruct e as [sep'|] eqn:Hsep; [cbn [bind] in H|discriminate H] end.
+  cbn [bind] in H.
+  set (sep' := if index =? 0 then (if ltb key sep then key else sep) else sep) in H.
   destruct (isplit order fr child) as [[lft rgt]|] eqn:Hsp.
   - destruct (ismallest rgt) as [rs|] eqn:Ers; [cbn [bind] in H|discriminate H].
     match type of H with bind ?e _ = _ => destruct e as [t'|] eqn:Hu; [cbn [bind] in H|discriminate H] end.
